@@ -1,6 +1,10 @@
 package main
 
-import "fmt"
+import (
+	"fmt"
+	"go/types"
+	"strings"
+)
 
 // Element positions. A slice (base, off, len, cap) stores element i at
 // position pos(off, i) of its backing array. For off == 0 that is i itself.
@@ -25,6 +29,26 @@ func (r *FnRun) pos(off, i Term) Term {
 		r.assume(Term{fmt.Sprintf("(forall ((i Int)) (! (= (unat %s (at %s i)) i) :pattern ((at %s i))))", off.S, off.S, off.S), SBool})
 	}
 	return App("at", SInt, off, i)
+}
+
+// contentsFor: "opt contents" tracks the contents of every slice that is
+// appended to; "opt contents T1 T2" only of slices whose element type is
+// named (int, uint64, persistentBlockInfo, ...).
+func (r *FnRun) contentsFor(elem types.Type) bool {
+	if !r.contents {
+		return false
+	}
+	spec := r.c.Opts["contents"]
+	if spec == "true" {
+		return true
+	}
+	k := typeKey(elem)
+	for _, f := range strings.Fields(spec) {
+		if k == f || strings.HasSuffix(k, "."+f) {
+			return true
+		}
+	}
+	return false
 }
 
 // appendCase models one of the two outcomes of append(s, t...) with element
